@@ -5,6 +5,7 @@ import (
 	"fmt"
 	"os"
 	"path/filepath"
+	"sort"
 	"strings"
 	"sync"
 	"time"
@@ -30,6 +31,7 @@ type wsSpec struct {
 	buildErr string
 	bin     string
 	tag     any // whatever the generator wants to remember
+	files   map[string]string // all .lox files of the spec (name -> text)
 }
 
 func newWorkspace(tag string) *workspace {
@@ -55,6 +57,24 @@ func (w *workspace) add(loxText string) *wsSpec {
 
 // dumpAll asks the hook for the analysis of every spec (grammar numbering,
 // automaton, lexer automata).
+// addFiles adds a specification made of several .lox files.
+func (w *workspace) addFiles(files map[string]string) *wsSpec {
+	s := &wsSpec{name: fmt.Sprintf("s%03d", len(w.specs)), files: files}
+	s.dir = filepath.Join(w.dir, s.name)
+	os.MkdirAll(s.dir, 0o755)
+	var names []string
+	for n := range files {
+		names = append(names, n)
+	}
+	sort.Strings(names)
+	for _, n := range names {
+		os.WriteFile(filepath.Join(s.dir, n), []byte(files[n]), 0o644)
+		s.loxText += "// file " + n + "\n" + files[n]
+	}
+	w.specs = append(w.specs, s)
+	return s
+}
+
 func (w *workspace) dumpAll() error {
 	var dirs []string
 	for _, s := range w.specs {
